@@ -135,6 +135,7 @@ Ltac norm_a a :=
 Ltac leb_cases :=
   repeat match goal with
          | |- context [?x <=? ?y] => destruct (x <=? y) eqn:?
+         | |- context [?x <? ?y] => destruct (x <? y) eqn:?
          end; cbn [andb].
 
 (* ------------------------------------------------------------ find_token *)
@@ -144,7 +145,8 @@ Lemma ftl_unfold H c a start cur :
   if lenZ chunk =? 0 then ReachedEof (lenZ c)
   else match find_lf chunk with
        | Some i => Found (start + cur + i)
-       | None => find_token_loop H c a start (cur + lenZ chunk)
+       | None => if lenZ chunk <? H then ReachedEof (lenZ c)
+                 else find_token_loop H c a start (cur + lenZ chunk)
        end.
 Proof. simpl. destruct (read c (start + cur) H); reflexivity. Qed.
 
@@ -179,7 +181,7 @@ Proof.
         replace (start + cur + (p - (start + cur))) with p by lia.
         apply Hlf. }
       replace (lenZ (read c (start + cur) H)) with H by lia.
-      apply IH.
+      rewrite Z.ltb_irrefl. apply IH.
       * lia.
       * split; [lia|]. split; [exact Hlf|]. intros j Hj. apply Hmin. lia.
       * lia.
@@ -202,18 +204,18 @@ Proof.
       rewrite nth_read in Hn by lia.
       apply (Hmin (start + cur + i)); [lia|]. split; [lia|exact Hn].
     + replace (lenZ (read c (start + cur) H)) with H by lia.
-      apply (IH start (cur + H) p).
+      rewrite Z.ltb_irrefl. apply (IH start (cur + H) p).
       * lia.
       * split; [lia|]. split; [exact Hlf|]. intros j Hj. apply Hmin. lia.
       * lia.
 Qed.
 
-(* no line feed ahead: end of file is reported iff an attempt is left for
-   the empty read *)
+(* no line feed ahead: the end of the file is reported by the first short or
+   empty read, i.e. iff fewer than attempts*H bytes are left *)
 Lemma ftl_none H c (HH : 0 < H) : forall a start cur,
   0 <= start + cur <= lenZ c -> no_lf_from c (start + cur) ->
   find_token_loop H c a start cur =
-  if (1 <=? Z.of_nat a) && (lenZ c - (start + cur) <=? (Z.of_nat a - 1) * H)
+  if (1 <=? Z.of_nat a) && (lenZ c - (start + cur) <? Z.of_nat a * H)
   then ReachedEof (lenZ c) else ErrMaxLine.
 Proof.
   induction a as [|a IH]; intros start cur Hpos Hno.
@@ -221,18 +223,16 @@ Proof.
   - rewrite ftl_unfold. cbv zeta. norm_a a.
     pose proof (length_read c (start + cur) H (proj1 Hpos)) as Hlen.
     destruct (lenZ (read c (start + cur) H) =? 0) eqn:E0.
-    + (* empty read: at end of file *)
-      leb_cases; try reflexivity; exfalso; nia.
+    + leb_cases; try reflexivity; exfalso; nia.
     + destruct (find_lf (read c (start + cur) H)) as [i|] eqn:Ff.
       * exfalso. destruct (find_lf_some _ _ Ff) as (Hi & Hn & Hm).
         rewrite nth_read in Hn by lia.
         apply (Hno (start + cur + i)); [lia|]. split; [lia|exact Hn].
-      * rewrite IH.
-        -- set (k := lenZ (read c (start + cur) H)) in *.
-           assert (Hk : 0 < k) by lia.
+      * set (k := lenZ (read c (start + cur) H)) in *.
+        destruct (k <? H) eqn:Ek.
+        -- leb_cases; try reflexivity; exfalso; nia.
+        -- rewrite IH; [|lia|intros j Hj; apply Hno; lia].
            leb_cases; try reflexivity; exfalso; nia.
-        -- lia.
-        -- intros j Hj. apply Hno. lia.
 Qed.
 
 (* ---------------------------------------------------- find_token_reverse *)
@@ -246,9 +246,10 @@ Lemma ftr_unfold H c a start cur :
   else match rfind_lf chunk with
        | Some i => Found (ro + i)
        | None =>
-           if Z.of_nat a =? 0 then ErrMaxLine
-           else if ro =? 0 then ReachedEof 0
-                else find_token_reverse_loop H c a start (cur - lenZ chunk)
+           if rs <? H then ReachedEof 0
+           else if Z.of_nat a =? 0 then ErrMaxLine
+                else if ro =? 0 then ReachedEof 0
+                     else find_token_reverse_loop H c a start (cur - lenZ chunk)
        end.
 Proof.
   simpl.
@@ -257,6 +258,7 @@ Proof.
     [reflexivity|].
   change (lenZ (z :: l) =? 0) with false. cbv iota.
   destruct (rfind_lf (z :: l)); [reflexivity|].
+  destruct (_ <? H); [reflexivity|].
   destruct a; reflexivity.
 Qed.
 
@@ -305,6 +307,7 @@ Proof.
         exfalso. apply (rfind_lf_none _ Ff (q - ro)); [lia|].
         rewrite nth_read by lia. replace (ro + (q - ro)) with q by lia.
         apply Hlf. }
+      destruct (rs <? H) eqn:Ec; [lia|].
       destruct (Z.of_nat a =? 0) eqn:Ea; [nia|].
       destruct (ro =? 0) eqn:Er; [lia|].
       apply IH.
@@ -334,19 +337,27 @@ Proof.
       assert (Hlfi : lf_at c (ro + i)) by (split; [lia|exact Hn]).
       assert (q < ro) by nia.
       apply (Hmax (ro + i)); [lia|exact Hlfi].
-    + destruct (Z.of_nat a =? 0) eqn:Ea; [reflexivity|].
-      destruct (ro =? 0) eqn:Er; [nia|].
+    + assert (Hqro : q < ro).
+      { destruct (Z_lt_le_dec q ro) as [|Hge]; [assumption|].
+        exfalso. apply (rfind_lf_none _ Ff (q - ro)); [lia|].
+        rewrite nth_read by lia. replace (ro + (q - ro)) with q by lia.
+        apply Hlf. }
+      destruct (rs <? H) eqn:Ec; [lia|].
+      destruct (Z.of_nat a =? 0) eqn:Ea; [reflexivity|].
+      destruct (ro =? 0) eqn:Er; [lia|].
       apply (IH start (cur - lenZ (read c ro rs)) q).
       * lia.
       * split; [nia|]. split; [exact Hlf|]. intros j Hj. apply Hmax. lia.
       * nia.
 Qed.
 
+(* no line feed before: the start of the file is reported when the window is
+   clipped or starts at 0 with an attempt left, i.e. iff e < attempts*H *)
 Lemma ftr_none H c (HH : 0 < H) : forall a start cur,
   0 <= start + cur + H <= lenZ c ->
   no_lf_before c (start + cur + H) ->
   find_token_reverse_loop H c a start cur =
-  if (1 <=? Z.of_nat a) && (start + cur + H <=? (Z.of_nat a - 1) * H)
+  if (1 <=? Z.of_nat a) && (start + cur + H <? Z.of_nat a * H)
   then ReachedEof 0 else ErrMaxLine.
 Proof.
   induction a as [|a IH]; intros start cur He Hno.
@@ -362,13 +373,15 @@ Proof.
       * exfalso. destruct (rfind_lf_some _ _ Ff) as (Hi & Hn & Hm).
         rewrite nth_read in Hn by lia.
         apply (Hno (ro + i)); [lia|]. split; [lia|exact Hn].
-      * destruct (Z.of_nat a =? 0) eqn:Ea.
+      * destruct (rs <? H) eqn:Ec.
         -- leb_cases; try reflexivity; exfalso; nia.
-        -- destruct (ro =? 0) eqn:Er.
+        -- destruct (Z.of_nat a =? 0) eqn:Ea.
            ++ leb_cases; try reflexivity; exfalso; nia.
-           ++ rewrite IH.
-              ** set (k := lenZ (read c ro rs)) in *.
-                 leb_cases; try reflexivity; exfalso; nia.
-              ** lia.
-              ** intros j Hj. apply Hno. lia.
+           ++ destruct (ro =? 0) eqn:Er.
+              ** leb_cases; try reflexivity; exfalso; nia.
+              ** rewrite IH.
+                 --- set (k := lenZ (read c ro rs)) in *.
+                     leb_cases; try reflexivity; exfalso; nia.
+                 --- lia.
+                 --- intros j Hj. apply Hno. lia.
 Qed.
